@@ -28,6 +28,10 @@ def one(d):
         shutil.copytree("/repo", root, ignore=shutil.ignore_patterns(".git", "__pycache__", "notebooks", "images", "docs"))
         p = subprocess.run(["git", "apply", os.path.join(d, "patch.diff")], cwd=root, capture_output=True, text=True)
         if p.returncode != 0:
+            # /repo has moved on since the change was delivered (later fix: commits next to the patched lines): apply with fuzz
+            p = subprocess.run(f"patch -p1 -F3 -s < {os.path.join(d, 'patch.diff')}", shell=True, cwd=root, capture_output=True, text=True)
+            out["applied_with_fuzz"] = p.returncode == 0
+        if p.returncode != 0:
             out["error"] = "patch does not apply: " + p.stderr[-300:]
             return out
         env = {**os.environ, "VERIF_REPO": root, "VERIF_WORKERS": os.environ.get("SEEDED_WORKERS", "5"),
